@@ -200,5 +200,28 @@ func runC03(c *rt.Ctx) {
 			}
 		}
 	}
+	// (4) thorough: a connection issues a command and then reads the key while another connection
+	// writes it (program order within a connection must be respected by any linearization)
+	if c.Thorough() {
+		for _, lock := range []string{"single", "multi"} {
+			cfg := Cfg{Orca: "l1l2b", Lock: lock, Proto: "binary", L1H: "std", Conc: 4}
+			for _, o0 := range concOps(true, "a", "b", "0") {
+				for _, o1 := range concOps(true, "a", "b", "1") {
+					for _, ports := range [][2]int{{0, 1}, {1, 0}} {
+						item++
+						if !c.Mine(item) {
+							continue
+						}
+						if c.Expired() {
+							return
+						}
+						sc := ConcScenario{Harness: "C03", Cfg: cfg, Init: initStates("a")[2].Ops, Threads: []ConcThread{
+							{Port: ports[0], Ops: []wire.Op{o0, {Kind: "get", Key: "a"}}}, {Port: ports[1], Ops: []wire.Op{o1, {Kind: "gat", Key: "a", TTL: 0}}}}}
+						explore(sc, 3)
+					}
+				}
+			}
+		}
+	}
 	c.Set("n_distinct_outcomes_total", totalOutcomes)
 }
